@@ -33,11 +33,11 @@ type Rec struct {
 
 // Span describes where a record landed in the encoded message.
 type Span struct {
-	Depth                  int
-	Tag, WT                int
-	KeyStart, KeyEnd       int // key varint
-	LenStart, LenEnd       int // length prefix (Bytes only; else equal)
-	PayStart, PayEnd       int
+	Depth            int
+	Tag, WT          int
+	KeyStart, KeyEnd int // key varint
+	LenStart, LenEnd int // length prefix (Bytes only; else equal)
+	PayStart, PayEnd int
 }
 
 // AppendVarint appends v in base-128 varint form.
